@@ -274,12 +274,15 @@ pub fn apply(sim: &mut Sim, a: &Act) -> Applied {
                     }
                 }
                 Piece::Bad => {
+                    sim.gens[gi].misbehaved = true;
                     sim.send_bytes(gi, b"BADMETHOD /x HTTP/1.1\r\n\r\n");
                 }
                 Piece::Garbage => {
+                    sim.gens[gi].misbehaved = true;
                     sim.send_bytes(gi, b"\x00\xff garbage \r\r\n\n::\r\n");
                 }
                 Piece::Oversize => {
+                    sim.gens[gi].misbehaved = true;
                     let l = sim.gens[gi].limit_at_accept;
                     let msg = format!("PUT /over HTTP/1.1\r\nContent-Length: {}\r\n\r\n", l + 1);
                     sim.send_bytes(gi, msg.as_bytes());
